@@ -746,15 +746,15 @@ def check_same_set(c, R, snaps, prefix, sig):
     for k, s in enumerate(snaps):
         matches = [ident_eq(r, s) for r in R]
         ok &= ob(c, count_true(matches) == 1, f'{prefix}_each_once', sig=sig,
-                      info=f'transfer #{k} is not present exactly once')
+                 info=f'transfer #{k} is not present exactly once')
         for r, m in zip(R, matches):
             if m is False:
                 continue
             ob(c, Implies(m, fields_same(r, s)), f'{prefix}_fields_same', sig=sig[:-4],
-                    info=f'transfer #{k}: local path / sizes / progress / reasons differ')
+               info=f'transfer #{k}: local path / sizes / progress / reasons differ')
     for r in R:
         ob(c, Or(*[ident_eq(r, s) for s in snaps]) if snaps else False, f'{prefix}_nothing_else', sig=sig,
-                info='a transfer that is not in the written list came back')
+           info='a transfer that is not in the written list came back')
     return ok
 
 
@@ -837,10 +837,10 @@ def expected_state_after_load(c, r, s, sig):
             c.reach('repaired_' + new.name)
         if new == S.COMPLETE:
             ob(c, done, 'transferring_complete_iff_all_bytes', sig=sig + ['COMPLETE'],
-                    info='COMPLETE although not all bytes had arrived')
+               info='COMPLETE although not all bytes had arrived')
         elif new == S.INCOMPLETE:
             ob(c, _neg(done), 'transferring_complete_iff_all_bytes', sig=sig + ['INCOMPLETE'],
-                    info='INCOMPLETE although all bytes had arrived')
+               info='INCOMPLETE although all bytes had arrived')
         else:
             ob(c, False, 'transferring_complete_iff_all_bytes', sig=sig + [new.name], info=new.name)
     else:
@@ -865,9 +865,9 @@ def check_loaded(c, loop, M, snaps, sig, full=True):
         rq = r.remotely_queued
         ob(c, Not(rq) if not isinstance(rq, bool) else rq is False, 'remote_queue_mark_cleared', sig=tsig)
         ob(c, sum(1 for l in r.state_listeners if l is M) == 1 and len(r.state_listeners) == 1,
-                'listener_attached_once', sig=tsig, info=f'{len(r.state_listeners)} listeners')
+           'listener_attached_once', sig=tsig, info=f'{len(r.state_listeners)} listeners')
         ob(c, r._transfer_task is None and r._remotely_queue_task is None and not r._state_lock.locked()
-                and r.state.transfer is r, 'fresh_runtime_fields', sig=tsig)
+           and r.state.transfer is r, 'fresh_runtime_fields', sig=tsig)
     if R:
         ob(c, M._management_queue.qsize() == 1, 'management_cycle_requested', sig=sig)
     if not full:
@@ -882,12 +882,12 @@ def check_loaded(c, loop, M, snaps, sig, full=True):
             if r.is_download():
                 elig = st in (S.QUEUED, S.INCOMPLETE) or (st == S.FAILED and r.fail_reason is None)
                 ob(c, any(x is r for x in downs) == elig, 'scheduling_picks_up', sig=tsig,
-                        info=f'download in {st.name} eligible={elig}')
+                   info=f'download in {st.name} eligible={elig}')
             elif st == S.QUEUED:
                 ob(c, Or(*[veq(x.username, r.username) for x in ups]) if ups else False, 'scheduling_picks_up',
-                        sig=tsig, info='no queued upload offered for this user')
+                   sig=tsig, info='no queued upload offered for this user')
         ob(c, all(x.is_upload() and x.state.VALUE == S.QUEUED for x in ups) and
-                all(x.is_download() for x in downs), 'scheduling_picks_up', sig=sig + ['foreign'])
+           all(x.is_download() for x in downs), 'scheduling_picks_up', sig=sig + ['foreign'])
     # a state change on a loaded transfer is reported (exactly once, with the right states)
     for r, s in pairs:
         old = r.state.VALUE
@@ -902,8 +902,8 @@ def check_loaded(c, loop, M, snaps, sig, full=True):
         new = S.PAUSED if old == S.QUEUED else S.QUEUED
         c.reach('state_changed')
         ob(c, r.state.VALUE == new and len(M.notified) == 1 and M.notified[0][0] is r
-                and M.notified[0][1:] == (old, new), 'state_change_reported', sig=tsig,
-                info=f'{old.name}->{r.state.VALUE.name}, notifications={[(o.name, n.name) for _, o, n in M.notified]}')
+           and M.notified[0][1:] == (old, new), 'state_change_reported', sig=tsig,
+           info=f'{old.name}->{r.state.VALUE.name}, notifications={[(o.name, n.name) for _, o, n in M.notified]}')
     return pairs
 
 
@@ -1246,16 +1246,19 @@ META = {
                       'None-ness of local_path / place_in_queue / fail_reason / abort_reason / filesize / start_time / '
                       'complete_time, presence of a stray _offset', 'record format: current / written by an older version',
                       'string lengths', 'operation sequence write / mutate i / remove i / add'],
-    'bounds': {'quick': {'pair': 'name lengths 0..2 x 0..2 for both transfers, 4 direction pairs',
-                         'single': 'all 10 states x 2 directions x 32 None-ness shapes, current and legacy records, 2 restarts',
-                         'restart': 'n=0; n=2 all 400 state x direction pairs (current); legacy pairs over 5 representative states; '
-                                    'n=8 rotating over all states (remote paths assumed pairwise different)',
-                         'sequence': '2 transfers (+1 addable), 3 operations, fresh and legacy start',
-                         'api': '4 scenarios through download()/add()/remove()/store_data()/load_data()'},
-               'thorough': {'pair': 'name lengths 0..3 x 0..3', 'single': 'all 256 None-ness shapes',
-                            'restart': 'n=3 all 8000 state x direction triples; n=2 legacy all pairs; n=5 and n=8 rotating',
-                            'sequence': '3 transfers (+1), 4 operations; 2 transfers with unequal name lengths',
-                            'api': 'same'}},
+    'bounds': {'quick': {'pair': 'user / path lengths 0..2 for both transfers (81 length combinations) x 4 direction pairs',
+                         'single': '10 states x 2 directions x 32 None-ness shapes (the 4 bits the code branches on x the passive ones '
+                                   'all-or-nothing) x current / legacy record; two restarts in a row',
+                         'restart': 'n=0; n=2: 20 x 6 representative partners (current), 10 x 4 (legacy); n=8: every state present, '
+                                    '10 rotations (+2 legacy), remote paths assumed pairwise different',
+                         'sequence': '2 live transfers + 1 addable, 3 operations out of write / mutate i / remove i / add, fresh and '
+                                     'legacy start, name lengths (1,1) and the colliding shapes (2,1)/(1,2)',
+                         'api': '4 scenarios through download()/add()/remove()/stop()/store_data()/load_data() x 2 name shapes'},
+               'thorough': {'pair': 'lengths 0..3 (256 combinations) x 4 direction pairs', 'single': 'all 256 None-ness shapes',
+                            'restart': 'n=2 all 400 pairs, current and legacy; n=3: 400 pairs x 10 representative third transfers; '
+                                       'n=5 and n=8: 20 rotations x current / legacy',
+                            'sequence': '3 live + 1 addable with 3 operations; 2 live + 1 with 4 operations; colliding shapes with 4',
+                            'api': 'as quick'}},
     'outside': ['names longer than the bound; more than 3 transfers whose names may alias each other (n=5/8 runs assume pairwise '
                 'different remote paths)',
                 'the dbm file format and the pickle byte format of symbolic leaves (exercised concretely only: prelude '
